@@ -13,6 +13,7 @@ corresponds to one or two of the reference (`swap; eval`, `cons`, `apply [; eval
 import ClvmProofs.Lemmas.RefMachine
 import ClvmProofs.Lemmas.RefLoops
 import ClvmProofs.Lemmas.Interp.MachineStepWf
+import ClvmProofs.Lemmas.Interp.LiftCore
 
 namespace Clvm.Ref
 open Clvm Clvm.Interp Clvm.Alloc
@@ -546,5 +547,172 @@ theorem eval_agree (K : List Frame) (hK : ∀ f ∈ K, f.Ok) (prog env : Val) (h
             · rw [msh.v]; simp only [argsValsM, f, hmv]
             · rw [msh.e, hme]
             · rw [msh.s, hms]
+
+/-! ### the loops -/
+
+
+def LoopOut (ro : Res) (mo : M (Nat × MState)) : Prop :=
+  match ro, mo with
+  | .ok (c, t), .ok (c', s) => c = c' ∧ ∃ v rest, s.valStack = v :: rest ∧ v.erase = t
+  | .error _, .error _ => True
+  | .error e, .ok _ => BadR e
+  | .ok _, .error e' => BadM e'
+
+/-- the rest of the reference's iteration once the operation has returned `r` -/
+def rAfter (B fr cost : Nat) (r : Except RefErr (Nat × St)) : Option Res :=
+  match r with
+  | .error e => some (.error e)
+  | .ok (c, st') =>
+    match effectiveMax st' (some B) with
+    | some m => if cost + c > m then some (.error .cost) else Ref.runLoop coreAd (some B) fr st' (cost + c)
+    | none => Ref.runLoop coreAd (some B) fr st' (cost + c)
+
+def mAfter (B fm cost : Nat) (r : M (Nat × MState)) : Option (M (Nat × MState)) :=
+  match r with
+  | .error e => some (.error e)
+  | .ok (c, s') => Interp.runLoop {} dial B fm s' (cost + c)
+
+theorem mloop_step {sm : MState} {op : Operation} {ops : List Operation} (B fm cost : Nat)
+    (hs : sm.softforkStack = []) (hc : cost ≤ B) (hop : sm.opStack = op :: ops) :
+    Interp.runLoop {} dial B (fm + 1) sm cost = mAfter B fm cost (stepOp {} dial { sm with opStack := ops } op cost B) := by
+  rw [runLoop_succ]
+  unfold loopBody
+  have he : effMax B sm = B := by simp [effMax, hs]
+  rw [he, if_neg (by omega), hop]
+  simp only [mAfter]
+  cases stepOp {} dial { sm with opStack := ops } op cost B with
+  | error e => rfl
+  | ok r => rfl
+
+theorem mloop_over {sm : MState} (B fm cost : Nat) (hs : sm.softforkStack = []) (hc : cost > B)
+    {mo : M (Nat × MState)} (h : Interp.runLoop {} dial B fm sm cost = some mo) : ∃ e, mo = .error e := by
+  cases fm with
+  | zero => simp [runLoop_zero] at h
+  | succ n =>
+    rw [runLoop_succ] at h
+    unfold loopBody at h
+    have he : effMax B sm = B := by simp [effMax, hs]
+    rw [he, if_pos hc] at h
+    exact ⟨_, (Option.some.inj h).symm⟩
+
+def Rel (sr : St) (sm : MState) : Prop :=
+  (∃ K v, RetRel K v sr sm) ∨ (∃ f K, ArgsRel f K sr sm)
+
+theorem Rel.of_next {K : List Frame} {sr : St} {sm : MState} (h : Next K sr sm) : Rel sr sm := by
+  cases h with
+  | ret v h => exact Or.inl ⟨K, v, h⟩
+  | args f h => exact Or.inr ⟨f, K, h⟩
+
+theorem Rel.guards {sr : St} {sm : MState} (h : Rel sr sm) : sr.guards = [] ∧ sm.softforkStack = [] := by
+  rcases h with ⟨K, v, h⟩ | ⟨f, K, h⟩
+  · exact ⟨h.rg, h.ms⟩
+  · exact ⟨h.rg, h.ms⟩
+
+/-- `StepAgree` with the extra information needed when only the model gives up on cost -/
+def StepAgree' (cost B : Nat) (rr : Except RefErr (Nat × St)) (mr : M (Nat × MState)) : Prop :=
+  match rr, mr with
+  | .ok (c, sr), .ok (c', sm) => c = c' ∧ Rel sr sm
+  | .error _, .error _ => True
+  | .error e, .ok _ => BadR e
+  | .ok (c, sr), .error e' => BadM e' ∨ (cost + c > B ∧ sr.guards = [])
+
+theorem StepAgree.to' {cost B : Nat} {K : List Frame} {rr : Except RefErr (Nat × St)} {mr : M (Nat × MState)}
+    (h : StepAgree cost B (Next K) rr mr) (hg : ∀ c sr, rr = .ok (c, sr) → sr.guards = []) : StepAgree' cost B rr mr := by
+  cases rr with
+  | error e => cases mr <;> exact h
+  | ok r =>
+    obtain ⟨c, sr⟩ := r
+    cases mr with
+    | error e' =>
+      rcases h with h | ⟨_, h⟩
+      · exact Or.inl h
+      · exact Or.inr ⟨h, hg c sr rfl⟩
+    | ok r' => exact ⟨h.1, Rel.of_next h.2⟩
+
+theorem after_agree {B fr fm cost : Nat} {rr : Except RefErr (Nat × St)} {mr : M (Nat × MState)} {ro : Res}
+    {mo : M (Nat × MState)}
+    (IH : ∀ (fr' : Nat) (sr' : St) (sm' : MState) (cost' : Nat) (ro : Res) (mo : M (Nat × MState)),
+      cost' ≤ B → Rel sr' sm' → Ref.runLoop coreAd (some B) fr' sr' cost' = some ro →
+      Interp.runLoop {} dial B fm sm' cost' = some mo → LoopOut ro mo)
+    (hs : StepAgree' cost B rr mr) (hr : rAfter B fr cost rr = some ro) (hm : mAfter B fm cost mr = some mo) :
+    LoopOut ro mo := by
+  cases rr with
+  | error e =>
+    simp only [rAfter, Option.some.injEq] at hr
+    subst hr
+    cases mr with
+    | error e' => simp only [mAfter, Option.some.injEq] at hm; subst hm; trivial
+    | ok r' =>
+      have hb : BadR e := hs
+      cases mo with
+      | error _ => trivial
+      | ok _ => exact hb
+  | ok r =>
+    obtain ⟨c, sr'⟩ := r
+    cases mr with
+    | error e' =>
+      simp only [mAfter, Option.some.injEq] at hm
+      subst hm
+      rcases hs with hb | ⟨hgt, hg⟩
+      · cases ro with
+        | error _ => trivial
+        | ok _ => exact hb
+      · simp only [rAfter, effectiveMax, hg] at hr
+        rw [if_pos hgt] at hr
+        simp only [Option.some.injEq] at hr
+        subst hr
+        trivial
+    | ok r' =>
+      obtain ⟨c', sm'⟩ := r'
+      obtain ⟨rfl, hrel⟩ := hs
+      obtain ⟨hg, hsf⟩ := hrel.guards
+      simp only [rAfter, effectiveMax, hg] at hr
+      simp only [mAfter] at hm
+      by_cases hgt : cost + c > B
+      · rw [if_pos hgt] at hr
+        simp only [Option.some.injEq] at hr
+        subst hr
+        obtain ⟨e, rfl⟩ := mloop_over B fm (cost + c) hsf hgt hm
+        trivial
+      · rw [if_neg hgt] at hr
+        exact IH fr sr' sm' (cost + c) ro mo (by omega) hrel hr hm
+
+/-! ### `SwapEval` and `Cons` on the model -/
+
+
+theorem pop_eq {s : MState} {v : Val} {rest : List Val} (hv : s.valStack = v :: rest) :
+    s.pop = .ok (v, { s with valStack := rest, valLen := s.valLen - 1 }) := by
+  unfold MState.pop; rw [hv]
+
+theorem swapEval_cases {s : MState} {acc a env : Val} {rest E : List Val}
+    (hv : s.valStack = acc :: a :: rest) (he : s.envStack = env :: E) :
+    (∃ e, swapEvalOp {} dial s = .error e ∧ BadM e) ∨
+    (∃ s2, swapEvalOp {} dial s = evalPair {} dial s2 a env ∧
+      Shape s2 (Operation.Cons :: s.opStack) (acc :: rest) s.envStack s.softforkStack) := by
+  unfold swapEvalOp
+  rw [pop_eq hv]
+  simp only [bind, Except.bind]
+  rw [pop_eq (s := { s with valStack := a :: rest, valLen := s.valLen - 1 }) rfl]
+  simp only [he]
+  rcases push_cases ({ s with valStack := rest, valLen := s.valLen - 1 - 1, envStack := env :: E }) acc with h | h
+  · left; rw [h]; exact ⟨_, rfl, Or.inr (Or.inl rfl)⟩
+  · right; rw [h]
+    exact ⟨_, rfl, rfl, rfl, by simp [MState.pushOp, he], rfl⟩
+
+theorem consOp_cases {s : MState} {v1 v2 : Val} {rest : List Val} (hv : s.valStack = v1 :: v2 :: rest) :
+    (∃ e, Interp.consOp s = .error e ∧ BadM e) ∨
+    (∃ s', Interp.consOp s = .ok (0, s') ∧ Shape s' s.opStack (.pair v1 v2 :: rest) s.envStack s.softforkStack) := by
+  unfold Interp.consOp
+  rw [pop_eq hv]
+  simp only [bind, Except.bind]
+  rw [pop_eq (s := { s with valStack := v2 :: rest, valLen := s.valLen - 1 }) rfl]
+  simp only
+  rcases allocPair_cases s.ctr v1 v2 with ⟨c', h⟩ | ⟨e, h, hl⟩
+  · rw [h]
+    simp only [liftE]
+    rcases push_cases ({ s with valStack := rest, valLen := s.valLen - 1 - 1, ctr := c' }) (.pair v1 v2) with h2 | h2
+    · left; rw [h2]; exact ⟨_, rfl, Or.inr (Or.inl rfl)⟩
+    · right; rw [h2]; exact ⟨_, rfl, rfl, rfl, rfl, rfl⟩
+  · left; rw [h]; exact ⟨_, rfl, Or.inl hl⟩
 
 end Clvm.Ref
